@@ -1,7 +1,9 @@
 mod entity;
 mod gen_serve;
 mod histories;
+mod gen_stream;
 mod negot;
+mod stream_engine;
 mod rng;
 mod serve_engine;
 mod val;
@@ -42,6 +44,26 @@ fn main() {
                 writeln!(meta, "{}\t{}\t{}", id, c.class.replace('\t', " ").replace('\n', " "), o.checks.join(",")).unwrap();
             };
             let n_mixed = if thorough { 60000 } else { 4000 };
+            let stream_props = ["C08", "C09", "C11", "C17"];
+            if stream_props.contains(&prop.as_str()) {
+                drop(emit_serve);
+                let mut k = 0u64;
+                let mut emit_stream = |c: stream_engine::StreamCase| {
+                    let o = stream_engine::run(&c);
+                    let id = format!("{}-{}", prop, k);
+                    k += 1;
+                    let v = val::Val::L(vec![o.input, o.obs]);
+                    writeln!(cases, "stream {} {}", id, v.to_string()).unwrap();
+                    writeln!(meta, "{}\t{}\t", id, c.class.replace('\t', " ").replace('\n', " ")).unwrap();
+                };
+                match prop.as_str() {
+                    "C08" => gen_stream::gen_c08(&mut rng, thorough, &mut emit_stream),
+                    "C09" => gen_stream::gen_c09(&mut rng, thorough, &mut emit_stream),
+                    "C11" => gen_stream::gen_c11(&mut rng, thorough, &mut emit_stream),
+                    _ => gen_stream::gen_c17(&mut rng, thorough, &mut emit_stream),
+                }
+                return;
+            }
             match prop.as_str() {
                 "C01" => {
                     gen_serve::gen_mixed(&mut rng, n_mixed, "c01", &mut emit_serve);
@@ -105,6 +127,30 @@ fn main() {
                 let line = line.unwrap();
                 let mut it = line.splitn(3, ' ');
                 let (engine, id, rest) = (it.next().unwrap_or(""), it.next().unwrap_or(""), it.next().unwrap_or(""));
+                if engine == "stream" {
+                    let v = val::Val::parse(rest).expect("case value");
+                    let input = match &v {
+                        val::Val::L(l) if l.len() == 2 => l[0].clone(),
+                        _ => v.clone(),
+                    };
+                    let c = stream_engine::case_of_input(&input).expect("decodable stream input");
+                    let o = stream_engine::run(&c);
+                    let v = val::Val::L(vec![o.input, o.obs]);
+                    writeln!(out, "stream {} {}", id, v.to_string()).unwrap();
+                }
+                if engine == "negot" {
+                    let v = val::Val::parse(rest).expect("case value");
+                    if let val::Val::L(l) = &v {
+                        if let Some(val::Val::L(inp)) = l.get(0) {
+                            let header = inp.get(0).and_then(|h| h.as_opt()).flatten().and_then(|h| h.as_b().cloned());
+                            let c = negot::NegotCase { header, ast: None, class: "replay".into() };
+                            // keep the original hint
+                            let obs = negot::run_should_gzip(&c.header);
+                            let nv = val::Val::L(vec![val::Val::L(inp.clone()), val::Val::N(obs)]);
+                            writeln!(out, "negot {} {}", id, nv.to_string()).unwrap();
+                        }
+                    }
+                }
                 if engine == "serve" {
                     let v = val::Val::parse(rest).expect("case value");
                     let input = match &v {
